@@ -113,6 +113,12 @@ Theorem C16_udp_relay_source_pinned : forall srv e inp evs fin cip dip dport sip
   ip_unspecified dip = false /\ ip_equal dip sip = true.
 Proof. exact udp_relay_source_pinned. Qed.
 
+(* the pinning does not depend on the zone of the client's address (fe80::1%eth0 is pinned to fe80::1) *)
+Theorem C16_zoned_client_is_pinned : forall ip zone dst,
+  ip <> [] -> ip_unspecified ip = false -> (dst = [] \/ ip_unspecified dst = true) ->
+  rewrite (CTcp ip zone) 3 dst = ip.
+Proof. exact zoned_client_is_pinned. Qed.
+
 (* non-vacuity: an authenticated client at 127.0.0.1 announcing 0.0.0.0:0 gets a relay pinned to
    127.0.0.1; a datagram from 192.0.2.2:5353 is not accepted, one from 127.0.0.1:40001 is *)
 Definition ex_cfg_assoc : config :=
@@ -145,6 +151,7 @@ Proof. eexists. split; [vm_compute; reflexivity|]. vm_compute. reflexivity. Qed.
 Print Assumptions C16_no_outbound_unless_authorised.
 Print Assumptions C16_resolve_precedes_rule_check.
 Print Assumptions C16_udp_relay_source_pinned.
+Print Assumptions C16_zoned_client_is_pinned.
 Print Assumptions C16_udp_relay_pinned_example.
 Print Assumptions C16_resolve_only_after_auth.
 Print Assumptions C16_refused_has_no_outbound.
